@@ -61,7 +61,7 @@ CHECKS = {
                 note='Random sampling. Allocation refusals are sampled (one refused attempt per operation, never in pool histories); exhaustive enumeration of failure points for fixed scenarios stays with C14. The +3 in the capacity bound is integer rounding (a 7-byte buffer may hold 1 byte).'),
     'C13': dict(level='exploration', ref='4/C13',
                 technique='runtime monitoring: live-element model; positions recorded only by the record-cookie callback; after every operation the peek hook walks the heap (membership, handle == position, parent <= child, getmin == model minimum); final drain sorted and equal to the model; timer queue judged through its public interface with old cookies; ASan+UBSan',
-                text='3,000 (quick) / 243,000 (thorough) histories; heaps of 0..3400 elements, create from 0..3000, four key ranges incl. many duplicates; every combination of position callback present/absent x user cookie NULL/non-NULL x init/create (the cookie handed to the callbacks must be the one given at construction; create\'s input array is scribbled and freed at once); tiny heaps held at 0..4 elements; five time modes with equal and distinct times.',
+                text='3,000 (quick) / 243,000 (thorough) histories; heaps of 0..3400 elements, create from 0..3000, four key ranges incl. many duplicates; every combination of position callback present/absent x user cookie NULL/non-NULL x init/create (the cookie handed to the callbacks must be the one given at construction; create\'s input array is scribbled and freed at once); tiny heaps held at 0..4 elements; five time modes with equal and distinct times; a second heap and a second timer queue stay alive for the whole process and are consulted (getmin) or re-keyed (increase / decrease) before every operation of a history, each judged against its own model.',
                 note='Random sampling. Heap-internal checks rely on the LIBCPERCIVA_VERIF peek hook.'),
     'C14': dict(level='fault_enumeration', ref='4/C14',
                 technique='runtime fault injection with monitors: tracking allocator with failpoints under the library (--wrap), one forked child per allocation attempt k (fails once / fails from k on), model-equality and registration monitors, refuse-everything during cannot-fail operations, empty-live-set check after all atexit handlers, ASan+UBSan, simulated kernel for the I/O scenarios',
